@@ -965,6 +965,8 @@ add("C13", "revert: command text token keeps the nested scan's start", "sqlglot/
 
 add("C13", "Athena parse_into drops the source text on the Trino branch", "sqlglot/parsers/athena.py",
     "        return self._trino_parser.parse_into(expression_types, raw_tokens, sql)\n", "        return self._trino_parser.parse_into(expression_types, raw_tokens)\n", "C13.l")
+add("C13", "benign: Dialect.parse keeps the tokens in a local before handing them on", "sqlglot/dialects/dialect.py",
+    "        return self.parser(**opts).parse(self.tokenize(sql), sql)\n", "        tokens = self.tokenize(sql)\n        return self.parser(**opts).parse(tokens, sql)\n", "silent")
 add("C13", "benign: Athena parse passes the source text by keyword", "sqlglot/parsers/athena.py",
     "        return self._trino_parser.parse(raw_tokens, sql)\n", "        return self._trino_parser.parse(raw_tokens, sql=sql)\n", "silent")
 add("C13", "revert: number, synthesised :: and type suffix share one span", "sqlglot/tokenizer_core.py",
